@@ -89,6 +89,7 @@ type CPage struct {
 	Broken string // "", "404", "notjson", "wrongtype": the page cannot be loaded
 	URL    string
 	NoID   bool
+	RefStyle int // how a remote page is referred to: 0 URL string, 1 {"id"}, 2 {"id","type"}
 }
 
 // CLayout is a whole collection: a root plus a chain of pages, possibly cyclic.
@@ -162,8 +163,14 @@ func (l *CLayout) Reference(limit int) (seq []RefItem, finite bool) {
 
 // noteItem makes an embedded (or remote) Note carrying a token.
 func (f *Fedi) noteItem(host string, published time.Time, remote bool) CItem {
-	n := f.next()
-	tok := fmt.Sprintf("K%dx", n)
+	return f.noteItemAt(host, f.next(), f.next(), published, remote)
+}
+
+// noteItemAt: pathN decides the path, tokN the token — two hosts can then serve different notes
+// under the same path.
+func (f *Fedi) noteItemAt(host string, pathN, tokN int, published time.Time, remote bool) CItem {
+	n := pathN
+	tok := fmt.Sprintf("K%dx", tokN)
 	id := fmt.Sprintf("https://%s/o/%d", host, n)
 	if f.QueryURLs {
 		id = fmt.Sprintf("https://%s/o/q?id=%d", host, n)
@@ -210,10 +217,16 @@ func (f *Fedi) DrawLayout(host string, mkItem func(remote bool) CItem) *CLayout 
 		l.PageLinks = t.Chance(1, 3)
 		l.Nulls = t.Chance(1, 4)
 		for i := 0; i < np; i++ {
-			p := &CPage{Items: itemsFor(), Remote: t.Chance(1, 2), NoID: t.Chance(1, 6)}
+			p := &CPage{Items: itemsFor(), Remote: t.Chance(1, 2), NoID: t.Chance(1, 6), RefStyle: t.Weighted(4, 1, 1)}
 			p.URL = fmt.Sprintf("https://%s/c/%d", host, f.next())
 			if f.QueryURLs {
-				p.URL = fmt.Sprintf("https://%s/c/q?page=%d", host, f.next())
+				// cursors that differ only in letter case are different pages
+				n := f.next()
+				cur := []string{"AkQ7b", "Akq7B", "aKQ7b", "AKQ7B", "akq7b", "AkQ7B"}[i%6]
+				p.URL = fmt.Sprintf("https://%s/c/q?max_id=%s%d", host, cur, n/100)
+				if n%3 == 0 {
+					p.URL = fmt.Sprintf("https://%s/c/q?page=%d", host, n)
+				}
 			}
 			l.Pages = append(l.Pages, p)
 		}
@@ -272,6 +285,12 @@ func (f *Fedi) Install(l *CLayout) {
 	ref := func(i int) any {
 		p := l.Pages[i]
 		if p.Remote {
+			switch p.RefStyle {
+			case 1:
+				return Doc{"id": p.URL} // a stub: must be dereferenced
+			case 2:
+				return Doc{"id": p.URL, "type": kind + "Page"}
+			}
 			return p.URL
 		}
 		return pageDocs[i]
